@@ -23,6 +23,22 @@ func c08r1011(p *model.Prog, r *report.Result, runLoop *ssa.Function) {
 		arg := model.Unwrap(ci.Common().Args[len(ci.Common().Args)-1])
 		var leaves []ssa.Value
 		seen := map[ssa.Value]bool{}
+		// parameters of a helper the computation was moved to, bound to what RunLoop passes
+		bind := map[*ssa.Parameter]ssa.Value{}
+		resolve := func(v ssa.Value) ssa.Value {
+			for i := 0; i < 4; i++ {
+				prm, ok := model.Unwrap(v).(*ssa.Parameter)
+				if !ok {
+					break
+				}
+				a, bound := bind[prm]
+				if !bound {
+					break
+				}
+				v = a
+			}
+			return model.Unwrap(v)
+		}
 		var walk func(v ssa.Value)
 		walk = func(v ssa.Value) {
 			v = model.Unwrap(v)
@@ -39,6 +55,11 @@ func c08r1011(p *model.Prog, r *report.Result, runLoop *ssa.Function) {
 			// the computation extracted into a helper: its returned values are the leaves
 			if c, ok := v.(*ssa.Call); ok {
 				if ce := c.Call.StaticCallee(); ce != nil && model.IsLal(ce) && ce.Blocks != nil && !model.SameFunc(model.CalleeObj(c.Common()), lenObj) {
+					if len(ce.Params) == len(c.Call.Args) {
+						for k, prm := range ce.Params {
+							bind[prm] = c.Call.Args[k]
+						}
+					}
 					for _, ret := range model.ReturnsOf(ce) {
 						for _, rv := range model.ReturnValues(ret) {
 							walk(rv)
@@ -60,7 +81,7 @@ func c08r1011(p *model.Prog, r *report.Result, runLoop *ssa.Function) {
 				what = "the whole message length"
 			default:
 				if bo, isB := l.(*ssa.BinOp); isB && bo.Op == token.SUB && model.IsLoadOfField(bo.X, msgLenF) {
-					if c, isC := bo.Y.(*ssa.Call); isC && model.SameFunc(model.CalleeObj(c.Common()), lenObj) {
+					if c, isC := resolve(bo.Y).(*ssa.Call); isC && model.SameFunc(model.CalleeObj(c.Common()), lenObj) {
 						ok = true
 					}
 				}
